@@ -191,3 +191,26 @@ def rand_print_tree(rng, instrs, depth, budget, floats=False, odd=False):
 
 def tsize(t):
     return 1 + sum(tsize(c) for c in t[1:]) if t[0] == 0 else 1
+
+
+def onto_state_cases(rng, names, some, n):
+    """cases of suite parse.st: random token trees parsed onto random whole states, with host-added instruction names and,
+    in 30%, a history (the same InstructionSet executed unknown instruction items spelled like names of the text)"""
+    from gen import stepgen
+    from gen.stategen import state as mk_state
+    st_cases = []
+    EXTRA = ["INTEGER.SQUARE", "HOST.PROBE", "SQ", "X", "tick", "7UP", "INF", "NAN", "inf", "42", "1e3", "-7", "TRUE", "1.5"]
+    for k in range(n):
+        st = stepgen.rand_state(rng, names, some, maxdepth=3)
+        extra = rng.sample(EXTRA, rng.choice([0, 0, 1, 2, 3]))
+        bound = [b[0] for b in st["bind"]]
+        vocab = some + [rng.choice(names)] + extra + extra + bound + bound + ["X", "SQ", "INTEGER.SQUARE", "INF", "42", "TRUE", "1.5", "nan"]
+        toks = rand_tok_tree(rng, vocab, rng.randrange(0, 4), rng.randrange(0, 25))
+        toks = [t if rng.random() < 0.7 else rng.choice(vocab) for t in toks if t not in ("(", ")")] if rng.random() < 0.3 else toks
+        text = join_ws(rng, toks, k % 3 != 0)
+        case = [k % 2, [], list(text), mk_state(**st), [[ord(c) for c in e] for e in extra]]
+        if rng.random() < 0.3:
+            unknown = [t for t in set(toks) if t not in names and t not in extra and t not in ("(", ")") and t] or ["X"]
+            case.append([I(rng.choice(unknown)) for _ in range(rng.randrange(1, 4))] + [Z(1)])
+        st_cases.append(sx_str(case))
+    return st_cases
